@@ -152,8 +152,20 @@ func (e *Engine) usePrelude(g *Gen, fn string) {
 func (p *Prelude) textFor(names []string) string {
 	seen := map[string]bool{}
 	var out []string
+	ring := false
+	for _, n := range names {
+		if n == "fieldring" {
+			ring = true
+		}
+	}
 	var add func(n string)
 	add = func(n string) {
+		if ring && n == "field" {
+			n = "fieldring" // the ring view provides the same vocabulary, interpreted over the integers
+		}
+		if ring && n != "fieldring" && n != "frint" && n != "bytesint" {
+			return // field-specific axioms (order, square roots, inverses) are not valid over the integers
+		}
 		if seen[n] {
 			return
 		}
